@@ -223,6 +223,8 @@ def run(repo, tier):
     encprops.check_acceptance(rep, facts, [m for m in m16 if m in oracle.RVC], 'R4.4.legal-set')
     IS.check_auipc(rep, facts, 'R4.5.auipc-adjust', 'R4.5.auipc-sibling')
     check_rounds(rep, facts, 'R4.6.rounds')
+    from .. import labelrules as _LB
+    _LB.check_live_env(rep, facts, 'R4.7.live-env')
     rep.floor('criteria rules', 29)
     rep.floor('predicate factories lifted', 9)
     rep.floor('region tuples enumerated', 20000)
